@@ -17,6 +17,7 @@ import (
 	"io"
 	"os"
 	"path/filepath"
+	"runtime"
 	"sync"
 	"time"
 
@@ -317,8 +318,6 @@ func doReq(ctx context.Context, st multiraft.Storage, q reqIn) error {
 // runGroup executes the requests concurrently as ONE write batch.
 func (s *sut) runGroup(mode int, reqs []reqIn) []uint64 {
 	ctx := context.Background()
-	// 1. park the worker inside the hook of a padding write
-	plug := &hookAction{entered: make(chan struct{}), release: make(chan struct{})}
 	imaged := false
 	var act *hookAction
 	switch mode {
@@ -331,52 +330,66 @@ func (s *sut) runGroup(mode int, reqs []reqIn) []uint64 {
 	default:
 		panic("unknown write mode")
 	}
+	codes := make([]uint64, len(reqs))
 	s.mu.Lock()
-	s.actions = append(s.actions, plug, act)
 	before := s.flushes
 	s.mu.Unlock()
-	padDone := make(chan error, 1)
-	s.pad++
-	padIdx := s.pad
-	go func() {
-		padDone <- s.db.For(raftlog.SlotScope(1000)).(multiraft.ConfigAppliedIndexStorage).MarkConfigApplied(ctx, padIdx)
-	}()
-	<-plug.entered
-	// 2. start the requests and wait until each has returned or sits in the queue
-	results := make([]chan error, len(reqs))
-	var returned int
-	var rmu sync.Mutex
-	for i, q := range reqs {
-		results[i] = make(chan error, 1)
-		go func(i int, q reqIn) {
-			err := doReq(ctx, s.db.For(scopeOf(q.S)), q)
+	maxFlushes := 1
+	if len(reqs) == 1 {
+		// a single request is a batch of its own: no need to park the worker
+		s.mu.Lock()
+		s.actions = append(s.actions, act)
+		s.mu.Unlock()
+		codes[0] = classify(doReq(ctx, s.db.For(scopeOf(reqs[0].S)), reqs[0]))
+	} else {
+		maxFlushes = 2
+		// 1. park the worker inside the hook of a padding write
+		plug := &hookAction{entered: make(chan struct{}), release: make(chan struct{})}
+		s.mu.Lock()
+		s.actions = append(s.actions, plug, act)
+		s.mu.Unlock()
+		padDone := make(chan error, 1)
+		s.pad++
+		padIdx := s.pad
+		go func() {
+			padDone <- s.db.For(raftlog.SlotScope(1000)).(multiraft.ConfigAppliedIndexStorage).MarkConfigApplied(ctx, padIdx)
+		}()
+		<-plug.entered
+		// 2. start the requests and wait until each has returned or sits in the queue
+		results := make([]chan error, len(reqs))
+		var returned int
+		var rmu sync.Mutex
+		for i, q := range reqs {
+			results[i] = make(chan error, 1)
+			go func(i int, q reqIn) {
+				err := doReq(ctx, s.db.For(scopeOf(q.S)), q)
+				rmu.Lock()
+				returned++
+				rmu.Unlock()
+				results[i] <- err
+			}(i, q)
+		}
+		deadline := time.Now().Add(30 * time.Second)
+		for {
 			rmu.Lock()
-			returned++
+			r := returned
 			rmu.Unlock()
-			results[i] <- err
-		}(i, q)
-	}
-	deadline := time.Now().Add(30 * time.Second)
-	for {
-		rmu.Lock()
-		r := returned
-		rmu.Unlock()
-		if r+raftlog.VerifWriteQueueLen(s.db) >= len(reqs) {
-			break
+			if r+raftlog.VerifWriteQueueLen(s.db) >= len(reqs) {
+				break
+			}
+			if time.Now().After(deadline) {
+				panic("requests neither returned nor were enqueued")
+			}
+			runtime.Gosched()
 		}
-		if time.Now().After(deadline) {
-			panic("requests neither returned nor were enqueued")
+		// 3. let the worker go: it takes every queued request into one batch
+		close(plug.release)
+		for i := range reqs {
+			codes[i] = classify(<-results[i])
 		}
-		time.Sleep(20 * time.Microsecond)
-	}
-	// 3. let the worker go: it takes every queued request into one batch
-	close(plug.release)
-	codes := make([]uint64, len(reqs))
-	for i := range reqs {
-		codes[i] = classify(<-results[i])
-	}
-	if err := <-padDone; err != nil {
-		panic("padding write failed: " + err.Error())
+		if err := <-padDone; err != nil {
+			panic("padding write failed: " + err.Error())
+		}
 	}
 	s.mu.Lock()
 	used := s.flushes - before
@@ -388,8 +401,8 @@ func (s *sut) runGroup(mode int, reqs []reqIn) []uint64 {
 		}
 	}
 	s.mu.Unlock()
-	if used > 2 {
-		panic(fmt.Sprintf("the group was split into %d batches", used-1))
+	if used > maxFlushes {
+		panic(fmt.Sprintf("the group was split into %d batches", used-maxFlushes+1))
 	}
 	if mode == 2 {
 		if !imaged {
@@ -463,10 +476,19 @@ func tmpRoot() string {
 
 func normalizeGroup(reqs []reqIn) []reqIn {
 	seen := map[int]bool{}
+	snap := false
 	var out []reqIn
 	for _, q := range reqs {
 		if q.S < 0 || q.S >= nScopes || seen[q.S] {
 			continue // one request per scope can be in flight (per-scope mutation lock)
+		}
+		if q.K == "save" && q.Sn != nil {
+			// publishSnapshotAndCommit holds the DB-wide snapshotLifecycleMu across the
+			// commit: two snapshot saves can never share a batch
+			if snap {
+				continue
+			}
+			snap = true
 		}
 		seen[q.S] = true
 		out = append(out, q)
@@ -475,6 +497,10 @@ func normalizeGroup(reqs []reqIn) []reqIn {
 }
 
 func run(in input) vh.Result {
+	tRun := time.Now()
+	if os.Getenv("C14_TIMING") != "" {
+		defer func() { fmt.Fprintf(os.Stderr, "run total %v\n", time.Since(tRun)) }()
+	}
 	s := &sut{root: tmpRoot()}
 	defer os.RemoveAll(s.root)
 	s.open()
@@ -499,6 +525,10 @@ func run(in input) vh.Result {
 		obsJSON = append(obsJSON, map[string]any{"obs": sc, "ok": p.ok, "first": p.first, "last": p.last, "snap": p.snap.Metadata.Index, "n": len(p.ents), "mem_last": m.last})
 	}
 	for _, o := range in.Ops {
+		t0 := time.Now()
+		if os.Getenv("C14_TIMING") != "" {
+			defer func(op string) { fmt.Fprintf(os.Stderr, "%s %v\n", op, time.Since(t0)) }(o.Op + fmt.Sprint(o.Mode, len(o.Reqs)))
+		}
 		switch o.Op {
 		case "write":
 			reqs := normalizeGroup(o.Reqs)
